@@ -244,6 +244,10 @@ func (ls *LanceroSource) updateChanOrderMap() {
 // ConfigureMixFraction sets the MixFraction potentially for many channels, returns the list of current mix values
 // mix = fb + errorScale*err
 func (ls *LanceroSource) ConfigureMixFraction(mfo *MixFractionObject) ([]float64, error) {
+	if len(mfo.MixFractions) != len(mfo.ChannelIndices) {
+		return nil, fmt.Errorf("have %d MixFractions for %d ChannelIndices, want equal numbers",
+			len(mfo.MixFractions), len(mfo.ChannelIndices))
+	}
 	for _, channelIndex := range mfo.ChannelIndices {
 		if channelIndex >= len(ls.Mix) || channelIndex < 0 {
 			return nil, fmt.Errorf("channelIndex %v out of bounds", channelIndex)
